@@ -350,6 +350,16 @@ func ruleT2(c *Ctx) []Ob {
 					}
 				}
 			}
+		case *ssa.Call:
+			// the table written as a function of the kind (held against the protocol table above, under the table's name)
+			if f := x.Call.StaticCallee(); f != nil && f.Name() == "minWireSize" && len(x.Call.Args) == 1 {
+				if _, ok := constIntFuncTable(f); ok {
+					if strings.HasSuffix(path(x.Call.Args[0]), ".WT") {
+						return true, ""
+					}
+					return false, "minWireSize called with " + path(x.Call.Args[0]) + " (not a wire type of the schema)"
+				}
+			}
 		case *ssa.Phi:
 			for _, e := range x.Edges {
 				if ok, why := divisorOK(e, d+1); !ok {
